@@ -94,7 +94,7 @@ class Val:
         if self.strs is not None and other.strs is not None:
             strs = self.strs | other.strs
         elif (self.rules is not None and self.kinds is None and other.rules is not None and other.kinds is None
-              and self.pos is None and other.pos is None and (self.strs == FS({"0"}) or other.strs == FS({"0"}))):
+              and self.pos is None and other.pos is None and ((self.strs is not None and "0" in self.strs) or (other.strs is not None and "0" in other.strs))):
             strs = FS({"0"})  # a parse tree that may also be the synthesized childless tree
         elem = self.elem.join(other.elem) if self.elem is not None else other.elem
         return Val(kinds, self.calls | other.calls, rules, self.excs | other.excs, strs, elem,
